@@ -191,8 +191,15 @@ def run_threaded(kind, seed, script, rt=3.0, answer=0.1, hold=0.0):
                 # a request arrives; exactly when the poll thread is about to send the reply (it polls every 0.02 s
                 # from t=0) the user disconnects / the link fails: the simulation interleaves the two at lock points
                 feed(d, REQ)
-                k = int(sim.now / 0.02) + sim.rng.choice([1, 1, 2])
-                sim.block(until=k * 0.02)
+                # wake up at exactly the instant the poll thread wakes up (its deadlines accumulate rounding errors,
+                # so k * 0.02 would always be a hair later than the poll thread)
+                for _ in range(sim.rng.choice([1, 1, 2])):
+                    us = [t["until"] for t in sim.threads.values()
+                          if t["name"].startswith("_poll_queue") and t["state"] == "wait" and t["until"] is not None]
+                    sim.block(until=min(us) if us else sim.now + 0.02)
+                # at this instant the poll thread wakes up as well: a controller command queued now is written
+                # while the disconnect / the reader's loss handling is in progress
+                gw.tasks.add_job(str, "1;1;1;0;2;1\n")
                 if tok == "race-disconnect":
                     gw.tasks.transport.disconnect()
                     disconnected = True
